@@ -174,8 +174,14 @@ def untouched_terms(o, snap, what="frame"):
             (f"{what}:no-buffer-written{'(' + ','.join(written) + ')' if written else ''}", B(not written))]
 
 
+OWN_CALIBRATION = ("_origin", "_sampling", "_units")
+
+
 def buffers_unwritten_terms(snap, what="frame"):
-    written = [k for k in snap if not unwritten(snap[k])]
+    """in-place variants may rebind fields and may update their OWN calibration containers (these are never shared between datasets:
+    clauses `calibration-containers-not-shared-with-source`), but must not write a data buffer that existed before the call:
+    __getitem__/crop results are numpy views, so such a write would change another dataset of the history."""
+    written = [k for k in snap if k not in OWN_CALIBRATION and not unwritten(snap[k])]
     return [(f"{what}:no-preexisting-buffer-written{'(' + ','.join(written) + ')' if written else ''}", B(not written))]
 
 
@@ -510,7 +516,7 @@ def cal_setter(prop, field, kinds):
         s.self.fields[field] = ndinfo_result(s.value, ndim_of(s))
 
     return C(f"{DS}:Dataset.{prop}.fset", label=f"Dataset.{prop}.setter", setup=setup, ensures=ensures, snapshot=snapshot, modifies=modifies,
-             raises={ValueError: lambda s: ndinfo_bad(s.value, ndim_of(s))})
+             raises={ValueError: lambda s: ndinfo_bad(s.value, ndim_of(s))}, on_raise=lambda s, E: unchanged_after_raise(s, E))
 
 
 C_SET_ORIGIN = cal_setter("origin", "_origin", NDINFO_KINDS)
@@ -539,7 +545,7 @@ def us_modifies(ctx, s):
 
 
 C_SET_UNITS = C(f"{DS}:Dataset.units.fset", label="Dataset.units.setter", setup=us_setup, ensures=us_ensures, modifies=us_modifies,
-                snapshot=lambda s: snapshot_ds(s.self),
+                snapshot=lambda s: snapshot_ds(s.self), on_raise=lambda s, E: unchanged_after_raise(s, E),
                 raises={ValueError: lambda s: units_bad(s.value, s.self.fields["_array"].ndim)})
 
 
@@ -575,7 +581,7 @@ def as_modifies(ctx, s):
 
 C_SET_ARRAY = C(f"{DS}:Dataset.array.fset", label="Dataset.array.setter", setup=as_setup, ensures=as_ensures, modifies=as_modifies, snapshot=as_snapshot,
                 requires=lambda s: [("value-is-an-ndarray (deductive domain)", B(isinstance(s.value, SymArr) and not s.value.pylist))],
-                raises={ValueError: lambda s: s.value.ndim > s.self.fields["_array"].ndim})
+                raises={ValueError: lambda s: s.value.ndim > s.self.fields["_array"].ndim}, on_raise=lambda s, E: unchanged_after_raise(s, E))
 
 
 def str_setter(prop, field):
@@ -1008,11 +1014,16 @@ def op_ensures_for(calibration_kept):
     return ensures
 
 
+def unchanged_after_raise(s, E):
+    """a call that raises leaves the object exactly as it was (so Inv survives failing operations in a history)"""
+    return tagged(untouched_terms(s.self, s.old, "unchanged"), getattr(s, "case", "call"))
+
+
 def per_config(func, name, setup_for, raises, calibration_kept, max_paths=20000, configs=CONFIGS):
     out = []
     for cfg in configs:
         c = C(func, label=f"{name}[{cfg[0]},ndim={cfg[1]}]", setup=setup_for(cfg), requires=ds_requires, ensures=op_ensures_for(calibration_kept),
-              snapshot=op_snapshot, raises=raises, max_paths=max_paths)
+              snapshot=op_snapshot, raises=raises, max_paths=max_paths, on_raise=unchanged_after_raise)
         c.cfg = cfg
         out.append(c)
     return out
@@ -1149,8 +1160,10 @@ def fr_setup_for(cfg):
         clsname, d, o, twin = op_base_setup(ctx, cfg)
         # every resampled axis multiplies the number of paths by 12 (parity of both lengths x shrink/grow/equal): one resampled
         # axis for every configuration, all axes only for ndim == 1; the remaining axis sets are covered by the bounded check
+        generic = clsname == "Dataset"
         forms = [f for f in FR_FORMS if (f != "out_shape,all-axes" or d == 1) and (f != "factors-tuple,axis-int" or cfg in (("Dataset", 2), ("Dataset3d", 3)))
-                 and (f != "factors-scalar,axes=(last,)" or cfg in (("Dataset", 1), ("Dataset", 3), ("Dataset", 5), ("Dataset2d", 2), ("Dataset4dstem", 4)))]
+                 and (f != "factors-scalar,axes=(last,)" or cfg in (("Dataset", 1), ("Dataset", 3), ("Dataset", 5), ("Dataset4dstem", 4)))
+                 and (generic or f not in ("both", "neither", "out_shape-wrong-length", "factors-wrong-length"))]
         form = pick(ctx, "form", forms)
         mip = pick(ctx, "mip", (False, True))
         osh, fac, axes = None, None, None
@@ -1340,13 +1353,13 @@ def gi_contracts():
         for ks, alphabets, tag in parts:
             # main family: indices are in range and steps non-zero (assumed in setup), so ANY exception is a failed no-raise obligation
             c = C(f"{DS}:Dataset.__getitem__", label=f"Dataset.__getitem__[{clsname},ndim={d}{tag}]", setup=gi_setup_for(cfg, ks, alphabets, reduced),
-                  requires=gi_requires, ensures=gi_ensures, snapshot=op_snapshot, max_paths=100000)
+                  requires=gi_requires, ensures=gi_ensures, snapshot=op_snapshot, max_paths=100000, on_raise=lambda s, E: unchanged_after_raise(s, E))
             c.cfg = cfg
             c.enum = (cfg, ks, alphabets, reduced, False)
             out.append(c)
         c = C(f"{DS}:Dataset.__getitem__", label=f"Dataset.__getitem__[{clsname},ndim={d},edge-values]",
               setup=gi_setup_for(cfg, tuple(range(1, min(d, 2) + 1)), ("E",), True, edge=True),
-              requires=gi_requires, ensures=gi_ensures, snapshot=op_snapshot, max_paths=100000, raises=rz)
+              requires=gi_requires, ensures=gi_ensures, snapshot=op_snapshot, max_paths=100000, raises=rz, on_raise=lambda s, E: unchanged_after_raise(s, E))
         c.cfg = cfg
         c.enum = (cfg, tuple(range(1, min(d, 2) + 1)), ("E",), True, True)
         out.append(c)
@@ -1610,8 +1623,8 @@ def rt_history(inp):
             dv = _view_diff(old, res)
             if dv or np.shares_memory(old.array, res.array) or np.shares_memory(old.origin, res.origin) or np.shares_memory(old.sampling, res.sampling) or old.units is res.units:
                 problems.append(f"step {step} copy: {'; '.join(dv) or 'shares memory with the source'}")
-        if kind in ("pad", "crop") and not _view_diff_cal(old if mutating else live[-1], target, before[-1]):
-            pass
+        if kind in ("pad", "crop") and (before[-1][4], before[-1][5], before[-1][6]) != _digest(target)[4:7]:
+            problems.append(f"step {step} {op}: calibration changed by {kind}")
         if target is not ds:
             live.append(target)
             ds = target
@@ -1620,10 +1633,6 @@ def rt_history(inp):
     return dict(violated=bool(problems), observed="; ".join(problems[:4]) or "ok",
                 expected="after every step: one calibration entry per axis, class matches ndim, indexing = numpy data with the kept axes' calibration, "
                          "sources bit-identical, in-place == copying")
-
-
-def _view_diff_cal(a, b, dg):
-    return True
 
 
 # ---- families
@@ -1885,12 +1894,7 @@ def gi_concretize_for(cfg, ks, alphabets, reduced, edge):
     return conc
 
 
-for _c in C_GETITEM:
-    pass
-
-
 def _attach():
-    fam_by = {}
     for c in VALIDATORS + SETTER_CONTRACTS + INIT_CONTRACTS + FA_CONTRACTS:
         c.rt, c.rt_family = rt_validators, fam_validators
     for c in (C_SET_ARRAY, C_SET_NAME, C_SET_SU, C_COPY, C_COPY4, C_CCA, C_CCA4):
